@@ -154,6 +154,20 @@ class Repo:
                 tree=tree,
             )
             self.modules[modname] = mod
+        if not os.environ.get("VERIF_NO_CANON"):
+            from .canon import Canon
+            from .canon import mutable_attrs_of
+
+            from . import canon as canon_mod
+
+            canon_mod.DEFAULT_MUTABLE_ATTRS.clear()
+            canon_mod.DEFAULT_MUTABLE_ATTRS.update(mutable_attrs_of(m.tree for m in self.modules.values()))
+            canon = Canon(canon_mod.DEFAULT_MUTABLE_ATTRS)
+            for mod in self.modules.values():
+                try:
+                    canon.tree(mod.tree)
+                except RecursionError as err:  # pragma: no cover
+                    raise AnalysisError(f"canonicaliser did not terminate on {mod.relpath}") from err
         for mod in self.modules.values():
             self._index_module(mod)
         for mod in self.modules.values():
